@@ -7,7 +7,7 @@ import os
 import sys
 import tempfile
 
-HDR = "from pymtl3 import *\n"
+HDR = "from pymtl3 import *\n@bitstruct\nclass GP:\n  x: Bits8\n  y: Bits4\n"
 
 
 def exprs(W):
@@ -84,6 +84,20 @@ EXTRA = [
   ('arr', 8, "s.out @= zext(s.arr[s.a[0:2]], 8)", "s.arr = [InPort(Bits4) for _ in range(4)]"),
   ('arr', 8, "s.out @= sext(s.arr[s.a[0:1]], 8)", "s.arr = [InPort(Bits4) for _ in range(2)]"),
   ('arr', 8, "for i in range(3):\n        s.w[i] @= s.arr[2-i]\n      s.out @= concat(s.w[0], s.w[2])", "s.arr = [InPort(Bits4) for _ in range(3)]\n    s.w = [Wire(Bits4) for _ in range(3)]"),
+  # a conditional expression under a same-width cast inside a binary operator; struct fields under trunc/extension;
+  # constants held in component attributes (negative, boundary)
+  ('cast', 8, "s.out @= Bits8(s.a if s.c else s.b) + s.b", ""),
+  ('cast', 8, "s.out @= s.a & Bits8(s.b if s.c else 15)", ""),
+  ('cast', 8, "s.out @= zext(Bits4(s.a[0:4] if s.c else s.b[4:8]), 8) ^ s.a", ""),
+  ('cast', 8, "s.out @= (s.a if s.c else s.b) + (s.b if s.a[0] else s.a)", ""),
+  ('field', 8, "s.out @= zext(trunc(s.st.x, 4), 8) + s.a", "s.st = InPort(GP)"),
+  ('field', 8, "s.out @= sext(s.st.y, 8) ^ s.st.x", "s.st = InPort(GP)"),
+  ('field', 8, "s.out @= zext(s.st.y[1:3], 8) + zext(reduce_or(s.st.x), 8)", "s.st = InPort(GP)"),
+  ('field', 8, "s.out @= concat(s.st.y, trunc(s.st.x, 4))", "s.st = InPort(GP)"),
+  ('attr', 8, "s.out @= s.K", "s.K = -3"),
+  ('attr', 8, "s.out @= s.K", "s.K = 255"),
+  ('attr', 8, "s.out @= s.a + Bits8(s.K)", "s.K = -128"),
+  ('attr', 8, "s.out @= s.a & s.KB", "s.KB = Bits8(0xf0)"),
 ]
 
 
